@@ -29,6 +29,7 @@ mod scale_stream;
 mod scale_readn;
 mod scale_tlv;
 mod util;
+mod unwind;
 
 use std::io::Write;
 use std::panic::{catch_unwind, AssertUnwindSafe};
